@@ -11,6 +11,11 @@ delivery order and every failing subset), used here as the callee summary of ``s
 (The parallel branch of ``BaseDOELibrary._run`` is not under contract: see PROPS["C13"]["not_covered"].)
 
 Disciplines are opaque values (pyvc/plug_c13d.py): local data / Jacobian / counters are ghost maps.
+
+The invariants of the two write-back loops are ANCHOR-FREE (LoopSpec(anchor=None)): they are stated over the specification's own sequences -
+discipline k of ``self._disciplines`` and task k of the positional result of ``super().execute`` (``lastw(k, d)``) -, never over the sequence the
+loop happens to run over, so that a loop over a filtered / shifted / reordered sequence fails ``inv_pres`` or the write-back postconditions
+(a violation with a named obligation) instead of making the check undecided.  Run-time replay: contracts/rt_c13.py.
 """
 from __future__ import annotations
 
